@@ -11,6 +11,7 @@ subscriber-facing SOAP client is recorded by TapClient.post_message_to (before t
 touched); delivery faults are injected with world.Net.hook.  time in subscriptionmgr_base and
 consumer.subscription is a virtual clock.
 """
+import asyncio
 import decimal
 import json
 import re
@@ -65,6 +66,7 @@ from sdc11073.consumer.subscription import ConsumerSubscription  # noqa: E402
 from sdc11073.namespaces import EventingActions  # noqa: E402
 from sdc11073.provider import subscriptionmgr, subscriptionmgr_async  # noqa: E402
 from sdc11073.pysoap.soapclient import HTTPReturnCodeError  # noqa: E402
+from sdc11073.pysoap.soapclient_async import SoapClientAsync  # noqa: E402
 from sdc11073.xml_types import eventing_types as evt  # noqa: E402
 from sdc11073.xml_types import pm_types  # noqa: E402
 from sdc11073.xml_types.actions import Actions  # noqa: E402
@@ -83,37 +85,178 @@ KIND_ACTIONS = {
 }
 
 
+FAULT_BODY = (b'<s12:Envelope xmlns:s12="http://www.w3.org/2003/05/soap-envelope" '
+              b'xmlns:wsa="http://www.w3.org/2005/08/addressing"><s12:Header>'
+              b'<wsa:Action>http://www.w3.org/2005/08/addressing/fault</wsa:Action></s12:Header><s12:Body><s12:Fault>'
+              b'<s12:Code><s12:Value>s12:Receiver</s12:Value></s12:Code><s12:Reason>'
+              b'<s12:Text xml:lang="en-US">subscriber is unhappy</s12:Text></s12:Reason></s12:Fault></s12:Body>'
+              b'</s12:Envelope>')
+GARBAGE_BODY = b'<html><body>502 bad gateway<br></body>'          # a 2xx answer that is not XML
+
+
+def http_bytes(status, reason, body, ctype='application/soap+xml; charset=utf-8'):
+    return (f'HTTP/1.1 {status} {reason}\r\nContent-Type: {ctype}\r\nContent-Length: {len(body)}\r\n\r\n'
+            ).encode() + body
+
+
+def kind_of(o):
+    """injected delivery outcome -> its kind"""
+    return o[0] if isinstance(o, list) else o
+
+
+def legacy_verdict(o):
+    """what world.FakeConnection.request understands (request-time faults on an established connection)"""
+    k = kind_of(o)
+    if k in ('ok', 'garbage'):
+        return None
+    if k in ('http', 'fault'):
+        return ('status', o[1])
+    if k in ('refuse', 'reset'):
+        return 'refuse'              # OSError while sending
+    if k in ('timeout', 'ctimeout'):
+        return 'timeout'
+    raise ValueError(o)
+
+
+class FaultConnection(world.FakeConnection):
+    """FakeConnection + faults at connect time + answers with a body"""
+
+    def _outcome(self):
+        return TapClient.outcome(self.netloc) if TapClient.outcome is not None else 'ok'
+
+    def connect(self):
+        k = kind_of(self._outcome())
+        if k == 'refuse':
+            raise ConnectionRefusedError(111, f'connection refused: {self.netloc}')     # what socket.connect raises
+        if k == 'ctimeout':
+            raise TimeoutError('timed out')                                              # socket.timeout
+        super().connect()
+
+    def request(self, method, url, body=None, headers=None):
+        o = self._outcome()
+        super().request(method, url, body=body, headers=headers)
+        k = kind_of(o)
+        if k == 'fault':
+            self._resp.response = http_bytes(o[1], 'injected', FAULT_BODY)
+        elif k == 'garbage':
+            self._resp.response = http_bytes(200, 'OK', GARBAGE_BODY, 'text/html')
+
+
 class TapClient(LoopClient):
     tap: list = []
     inject = None      # callable(rec): runs while the message is handed over and its exchange has not started yet
+    outcome = None     # callable(netloc) -> injected delivery outcome for this destination
+    raised: dict = {}  # histogram: exception class that the transport client raised per injected kind
 
-    def post_message_to(self, path, created_message, msg='', request_manipulator=None, validate=True):
+    def _mk_http_connection(self):
+        return FaultConnection(self.net, self._netloc, self.client_name, self._ssl_context)
+
+    @staticmethod
+    def handed(netloc, path, created_message):
         hib = created_message.p_msg.header_info_block
-        rec = {'netloc': self._netloc, 'path': path, 'action': str(hib.Action), 'to': hib.To,
-               'refp': [(r.tag, r.text) for r in (hib.reference_parameters or [])], 'ok': None}
+        rec = {'netloc': netloc, 'path': path, 'action': str(hib.Action), 'to': hib.To,
+               'refp': [(r.tag, r.text) for r in (hib.reference_parameters or [])], 'ok': None,
+               'injected': kind_of(TapClient.outcome(netloc)) if TapClient.outcome is not None else 'ok'}
         TapClient.tap.append(rec)
         if TapClient.inject is not None:
             TapClient.inject(rec)      # other threads' operations, while the manager is blocked in this delivery
+        return rec
+
+    @staticmethod
+    def done(rec, exc):
+        rec['ok'] = exc is None
+        name = 'none' if exc is None else type(exc).__name__
+        if exc is not None:
+            rec['exc'] = name
+        key = f'{rec["injected"]}->{name}'
+        TapClient.raised[key] = TapClient.raised.get(key, 0) + 1
+
+    def post_message_to(self, path, created_message, msg='', request_manipulator=None, validate=True):
+        rec = self.handed(self._netloc, path, created_message)
         try:
             r = super().post_message_to(path, created_message, msg=msg, request_manipulator=request_manipulator,
                                         validate=validate)
         except BaseException as exc:
-            rec['ok'] = False
-            rec['exc'] = type(exc).__name__
+            self.done(rec, exc)
             raise
-        rec['ok'] = True
+        self.done(rec, None)
         return r
 
 
-class AsyncTapClient(TapClient):
-    """stands in for SoapClientAsync (aiohttp): the coroutine performs the loop-back exchange synchronously"""
+class _FakeResponse:
+    def __init__(self, status, reason, body):
+        self.status, self.reason, self._body = status, reason, body
 
-    async def async_post_message_to(self, path, created_message, msg='', request_manipulator=None, validate=True):
-        return self.post_message_to(path, created_message, msg=msg, request_manipulator=request_manipulator,
-                                    validate=validate)
+    async def text(self):
+        return self._body.decode('utf-8')
 
-    async def async_close(self):
-        self.close()
+
+class _FakePost:
+    """what ClientSession.post(...) returns: an async context manager; the exchange happens on entering"""
+
+    def __init__(self, session, path, data, headers):
+        self.s, self.path, self.data, self.headers = session, path, data, headers
+
+    async def __aenter__(self):
+        import aiohttp
+        from aiohttp.client_reqrep import ConnectionKey
+        cl = self.s.client
+        o = TapClient.outcome(cl.netloc) if TapClient.outcome is not None else 'ok'
+        k = kind_of(o)
+        host, _, port = cl.netloc.partition(':')
+        if k == 'refuse':
+            key = ConnectionKey(host, int(port), False, True, None, None, None)
+            raise aiohttp.ClientConnectorError(key, ConnectionRefusedError(111, 'Connect call failed'))
+        if k == 'ctimeout':
+            raise aiohttp.ConnectionTimeoutError(f'Connection timeout to host http://{cl.netloc}{self.path}')
+        if k == 'timeout':
+            raise asyncio.TimeoutError          # ClientTimeout(total=socket_timeout) expired
+        if k == 'reset':
+            raise aiohttp.ServerDisconnectedError
+        conn = world.FakeConnection(LoopClient.net, cl.netloc, f'async:{cl.netloc}')
+        conn.connect()
+        data = self.data if isinstance(self.data, (bytes, bytearray)) else b''.join(self.data)
+        conn.request('POST', self.path, body=data, headers=self.headers)
+        if k == 'fault':
+            conn._resp.response = http_bytes(o[1], 'injected', FAULT_BODY)
+        elif k == 'garbage':
+            conn._resp.response = http_bytes(200, 'OK', GARBAGE_BODY, 'text/html')
+        r = conn.getresponse()
+        return _FakeResponse(r.status, r.reason, r.read())
+
+    async def __aexit__(self, *a):
+        return False
+
+
+class _FakeSession:
+    """stands in for aiohttp.ClientSession inside the REAL SoapClientAsync"""
+
+    def __init__(self, client):
+        self.client = client
+
+    def post(self, path, data=None, headers=None):
+        return _FakePost(self, path, data, headers)
+
+    async def close(self):
+        pass
+
+
+class AsyncTapClient(SoapClientAsync):
+    """the real SoapClientAsync; only the aiohttp session is replaced: the loop-back exchange is performed when
+    the post context is entered, transport faults are raised as the aiohttp / asyncio exception classes"""
+
+    async def _mk_http_connection(self):
+        return _FakeSession(self)
+
+    async def async_post_message_to(self, path, created_message, request_manipulator=None):
+        rec = TapClient.handed(self._netloc, path, created_message)
+        try:
+            r = await super().async_post_message_to(path, created_message, request_manipulator=request_manipulator)
+        except BaseException as exc:
+            TapClient.done(rec, exc)
+            raise
+        TapClient.done(rec, None)
+        return r
 
 
 class Sink:
@@ -313,8 +456,13 @@ class Driver:
                 out.append(None)
             else:
                 cl = e.soap_client
-                dead = bool(cl.is_closed() and cl._has_connection_error)
-                out.append([sorted(self.k_of_sub(u) for u in e.usr_idents), dead])
+                if isinstance(cl, SoapClientAsync):
+                    state = 0            # no connection state that matters: every post stands for itself
+                elif not cl.is_closed():
+                    state = 1
+                else:
+                    state = 2 if cl._has_connection_error else 0
+                out.append([sorted(self.k_of_sub(u) for u in e.usr_idents), state])
         return out
 
     def handed(self, recs):
@@ -323,10 +471,11 @@ class Driver:
             k, is_e = self.k_of_path(r['path'])
             sink = self.sink_of.get(r['netloc'])
             if r['action'] == EventingActions.SubscriptionEnd:
-                out.append({'m': ['end', k, sink, bool(is_e)], 'ok': r['ok'], 'to': r['to'], 'refp': r['refp']})
+                out.append({'m': ['end', k, sink, bool(is_e)], 'ok': r['ok'], 'to': r['to'], 'refp': r['refp'],
+                            'exc': r.get('exc')})
             else:
                 out.append({'m': ['notify', k, self.act_tok(r['action']), sink], 'ok': r['ok'], 'to': r['to'],
-                            'refp': r['refp'], 'is_e': bool(is_e)})
+                            'refp': r['refp'], 'is_e': bool(is_e), 'exc': r.get('exc')})
         return sorted(out, key=lambda d: (d['m'][0], -1 if d['m'][1] is None else d['m'][1], json.dumps(d['m'])))
 
     def entry(self, resp, recs, **extra):
@@ -337,18 +486,20 @@ class Driver:
     def set_hook(self, outs):
         self.cur_outs = outs
 
+        def outcome(netloc):
+            i = self.sink_of.get(netloc)
+            if i is None or i >= len(self.cur_outs):
+                return 'ok'
+            return self.cur_outs[i]
+
         def hook(ex):
-            outs = self.cur_outs
-            i = self.sink_of.get(ex.netloc)
-            if i is None or i >= len(outs):
-                return None
-            o = outs[i]
-            if o == 'ok':
-                return None
-            if isinstance(o, list):
-                return ('status', o[1])
-            return o
+            return legacy_verdict(outcome(ex.netloc))
+        TapClient.outcome = outcome
         self.w.net.hook = hook
+
+    def clear_hook(self):
+        self.w.net.hook = None
+        TapClient.outcome = None
 
     # ------------------------------------------------------------------ requests
     def mk_cons(self, filter_type, notify_url, end_url, cons_ref, j):
@@ -548,7 +699,7 @@ class Driver:
             crash = f'{type(exc).__name__}: {exc}'[:300]
             expect = [a.value for a in KIND_ACTIONS[what[1]]] if what[0] == 'kind' else [self.tok_str(what[1])]
         finally:
-            self.w.net.hook = None
+            self.clear_hook()
         tap = TapClient.tap
         entries = []
         got = [r[1] for r in self.sends]
@@ -656,7 +807,7 @@ class Driver:
         if crash is None and got != [expect]:
             crash = f'send_to_subscribers calls {got} != {[expect]}'
         waited = [self.inner_op(op) for op in fan['waiting']] if not fan['blocked'] else []
-        self.w.net.hook = None
+        self.clear_hook()
         events = []
         for ev in fan['events']:
             h = self.handed([ev['rec']])[0]
@@ -692,7 +843,7 @@ class Driver:
         except Exception as exc:  # noqa: BLE001
             crash = f'{type(exc).__name__}: {exc}'[:300]
         finally:
-            self.w.net.hook = None
+            self.clear_hook()
         self.stopped = True
         return self.entry(['none'] if crash is None else ['crash', crash], TapClient.tap[t0:])
 
@@ -726,7 +877,7 @@ class Driver:
         return out
 
     def close(self):
-        self.w.net.hook = None
+        self.clear_hook()
         TapClient.inject = None
         if not self.stopped:
             try:
@@ -868,7 +1019,8 @@ def main():
         finally:
             if d is not None:
                 d.close()
-    print(json.dumps({'traces': traces, 'actions': ACTIONS, 'default_max_err': DEFAULT_MAX_ERR}))
+    print(json.dumps({'traces': traces, 'actions': ACTIONS, 'default_max_err': DEFAULT_MAX_ERR,
+                      'raised': TapClient.raised}))
 
 
 if __name__ == '__main__':
